@@ -1,17 +1,18 @@
 (* C17 - Box.rounded_box of weasyprint/formatting_structure/boxes.py as REGENERATED from the source on every run
    (gen/GenBoxes.v) computes the hand model rounded_box of model/C17Radius.v (on which the corner theorems of C17
    rest) for every box, every radii and every four distances: position, size and the eight scaled radii agree
-   (numbers up to ==).  First with the four geometry methods as oracles, then linked to their own regenerated
-   bodies. *)
+   (numbers up to ==).  First with the four geometry methods and the helper _overlap_ratio as oracles, then linked
+   to their own regenerated bodies (_overlap_ratio_body is shown to compute the model's overlap_ratio). *)
 From Coq Require Import QArith Qminmax Lqa List String Bool.
 Require Import WV.base.Py WV.gen.GenBoxes WV.proofs.PyTac.
-Require WV.model.C17Radius.
+Require WV.model.C17Radius WV.proofs.C17_radius.
 Import ListNotations.
 Open Scope string_scope.
 Open Scope list_scope.
 Open Scope Q_scope.
 
 Module M := WV.model.C17Radius.
+Module P := WV.proofs.C17_radius.
 
 Definition vpair (a b : Q) : val := VList [VNum a; VNum b].
 Definition radii_fields (R : M.radii) : list (string * val) :=
@@ -30,6 +31,27 @@ Definition rbox_rep (X Y : Q) (o : M.rbox) (v : val) : Prop :=
   | _ => False
   end.
 
+(* ---- the module-level helper _overlap_ratio: min([1] + [extent / sum for ... if sum > 0]) ---- *)
+Definition ratio_post (w h t b l r : Q) (_ : env) (res : option val) : Prop :=
+  exists q, res = Some (VNum q) /\ q == M.overlap_ratio w h t b l r.
+
+Lemma gen_overlap_ratio O (HO : ops_ok O) w h t b l r :
+  run O overlap_ratio_body
+      [("width", VNum w); ("height", VNum h); ("top", VNum t); ("bottom", VNum b); ("left", VNum l); ("right", VNum r)]
+      (ratio_post w h t b l r) (fun _ => False).
+Proof.
+  unfold run, overlap_ratio_body.
+  lazy -[qadd qsub qmul qdiv qmax qmin qleb qeqb ocall ratio_post Qplus Qminus Qmult Qdiv Qmax Qmin Qeq_bool Qle_bool
+         M.overlap_ratio].
+  split_paths O; unseal HO.
+  all: unfold ratio_post, M.overlap_ratio, M.cand.
+  all: repeat match goal with |- context [Qlt_le_dec ?a ?b] => destruct (Qlt_le_dec a b) end.
+  all: to_props.
+  all: try (exfalso; lra).
+  all: eexists; split; [reflexivity|].
+  all: cbn; reflexivity.
+Qed.
+
 Section Oracle.
 Variable O : qops.
 Hypothesis HO : ops_ok O.
@@ -38,6 +60,9 @@ Hypothesis HX : ocall O ".border_box_x" [bx] = VNum X.
 Hypothesis HY : ocall O ".border_box_y" [bx] = VNum Y.
 Hypothesis HW : ocall O ".border_width" [bx] = VNum W.
 Hypothesis HH : ocall O ".border_height" [bx] = VNum H.
+(* the helper, as an oracle: some number equal (==) to the model's overlap_ratio of the arguments *)
+Hypothesis HR : forall w h t b l r, exists q,
+  ocall O "_overlap_ratio" [VNum w; VNum h; VNum t; VNum b; VNum l; VNum r] = VNum q /\ q == M.overlap_ratio w h t b l r.
 
 Definition post (o : M.rbox) (_ : env) (res : option val) : Prop :=
   exists v, res = Some v /\ rbox_rep X Y o v.
@@ -54,17 +79,31 @@ Proof.
   destruct R as [r1 r2 r3 r4 r5 r6 r7 r8].
   unfold run, rounded_box_body, radii_fields in *.
   lazy -[qadd qsub qmul qdiv qmax qmin qleb qeqb ocall Qplus Qminus Qmult Qdiv Qmax Qmin Qeq_bool Qle_bool] in HX, HY, HW, HH.
-  ev. rewrite HX. ev. rewrite HY. ev. rewrite HW. ev. rewrite HH. ev.
-  split_paths O; unseal HO.
-  all: unfold post, M.rounded_box, M.ratio, M.cands, M.cand, M.inner_raw, M.qmax0, M.scale.
-  all: cbn [M.tlx M.tly M.trx M.try_ M.brx M.bry M.blx M.bly].
-  all: repeat match goal with |- context [Qlt_le_dec ?a ?b] => destruct (Qlt_le_dec a b) end.
-  all: to_props.
-  all: try (exfalso; lra).
-  all: eexists; split; [reflexivity|].
-  all: cbn; repeat split; try reflexivity; try ring.
+  ev. rewrite HW. ev. rewrite HH. ev.
+  match goal with |- context [ocall O "_overlap_ratio" [VNum ?w; VNum ?h; VNum ?t; VNum ?b; VNum ?l; VNum ?r]] =>
+    destruct (HR w h t b l r) as (k & Hk & Ek); rewrite Hk end.
+  ev. rewrite HX. ev. rewrite HY. ev. rewrite ?HW, ?HH. ev.
+  match goal with |- context [ocall O "_overlap_ratio" [VNum ?w; VNum ?h; VNum ?t; VNum ?b; VNum ?l; VNum ?r]] =>
+    destruct (HR w h t b l r) as (f & Hf & Ef); rewrite Hf end.
+  ev. unseal HO.
+  set (R := M.mkR r1 r2 r3 r4 r5 r6 r7 r8).
+  assert (EK : k == M.ratio W H R) by exact Ek.
+  assert (EF : f == M.ratio (W - bl - br) (H - bt - bb) (M.inner_raw (M.scale (M.ratio W H R) R) bt br bb bl)).
+  { rewrite Ef. rewrite P.ratio_is_overlap_ratio.
+    apply P.overlap_ratio_compat; try reflexivity;
+      unfold M.inner_raw, M.scale, M.qmax0, R; cbn [M.tlx M.tly M.trx M.try_ M.brx M.bry M.blx M.bly];
+      rewrite EK; reflexivity. }
+  clear Hk Hf Ek Ef HX HY HW HH HR.
+  unfold post. eexists; split; [reflexivity|].
+  unfold rbox_rep, pair_rep, M.rounded_box.
+  cbn [M.dx M.dy M.rw M.rh M.rr].
+  set (F := M.ratio (W - bl - br) (H - bt - bb) (M.inner_raw (M.scale (M.ratio W H R) R) bt br bb bl)) in *.
+  set (K := M.ratio W H R) in *.
+  unfold M.inner_raw, M.scale, M.qmax0, R. cbn [M.tlx M.tly M.trx M.try_ M.brx M.bry M.blx M.bly].
+  repeat split; try reflexivity; try ring; rewrite EF, EK; reflexivity.
 Qed.
 End Oracle.
+
 
 (* ------------------------------------------------------------------ linked: border_box_x / border_box_y /
    border_width / border_height (-> padding_width / padding_height) answered by their own regenerated bodies *)
@@ -88,17 +127,7 @@ Definition bbh (g : geom) : Q := g_h g + g_pt g + g_pb g + g_bt g + g_bb g.
 
 Notation T := GenBoxes_table.
 
-Theorem gen_rounded_box_linked n R g bt br bb bl :
-  run (linked T (S (S n))) rounded_box_body
-      [("self", vbox R g); ("bt", VNum bt); ("br", VNum br); ("bb", VNum bb); ("bl", VNum bl)]
-      (post (bbx g) (bby g) (M.rounded_box (bbw g) (bbh g) R bt br bb bl)) (fun _ => False).
-Proof.
-  apply (gen_rounded_box_oracle (linked T (S (S n))) (linked_ok _ _) (vbox R g) (bbx g) (bby g) (bbw g) (bbh g))
-    with (fields := geom_fields g); try reflexivity;
-    destruct R, g; lazy -[Qplus]; reflexivity.
-Qed.
-
-(* the value of a call of rounded_box *)
+(* the value of a call *)
 Lemma call_rep O (d : fn) args rho X Y o :
   PyLink.bind (fst d) args = Some rho ->
   run O (snd d) rho (post X Y o) (fun _ => False) ->
@@ -108,6 +137,41 @@ Proof.
   rewrite run_natural in H. rewrite run_natural.
   destruct (run_out O (snd d) rho) as [rho' res|m]; [|contradiction].
   destruct H as (v & -> & Hv). exists v. split; [reflexivity|exact Hv].
+Qed.
+
+Lemma call_ratio O (d : fn) args rho w h t b l r :
+  PyLink.bind (fst d) args = Some rho ->
+  run O (snd d) rho (ratio_post w h t b l r) (fun _ => False) ->
+  exists q, call_body O d args = VNum q /\ q == M.overlap_ratio w h t b l r.
+Proof.
+  intros Hb H. unfold call_body. rewrite Hb.
+  rewrite run_natural in H. rewrite run_natural.
+  destruct (run_out O (snd d) rho) as [rho' res|m]; [|contradiction].
+  destruct H as (q & -> & Hq). exists q. split; [reflexivity|exact Hq].
+Qed.
+
+Lemma find_overlap : find_fn "_overlap_ratio" T = Some (overlap_ratio_args, overlap_ratio_body).
+Proof. reflexivity. Qed.
+
+(* _overlap_ratio answered by its own regenerated body *)
+Lemma linked_overlap_ratio n w h t b l r :
+  exists q, ocall (linked T (S n)) "_overlap_ratio" [VNum w; VNum h; VNum t; VNum b; VNum l; VNum r] = VNum q /\
+            q == M.overlap_ratio w h t b l r.
+Proof.
+  rewrite ocall_linked, find_overlap.
+  apply (call_ratio (linked T n) (overlap_ratio_args, overlap_ratio_body) _
+           [("width", VNum w); ("height", VNum h); ("top", VNum t); ("bottom", VNum b); ("left", VNum l); ("right", VNum r)]);
+    [reflexivity|apply gen_overlap_ratio, linked_ok].
+Qed.
+
+Theorem gen_rounded_box_linked n R g bt br bb bl :
+  run (linked T (S (S n))) rounded_box_body
+      [("self", vbox R g); ("bt", VNum bt); ("br", VNum br); ("bb", VNum bb); ("bl", VNum bl)]
+      (post (bbx g) (bby g) (M.rounded_box (bbw g) (bbh g) R bt br bb bl)) (fun _ => False).
+Proof.
+  apply (gen_rounded_box_oracle (linked T (S (S n))) (linked_ok _ _) (vbox R g) (bbx g) (bby g) (bbw g) (bbh g))
+    with (fields := geom_fields g); try reflexivity; try (intros; apply linked_overlap_ratio);
+    destruct R, g; lazy -[Qplus]; reflexivity.
 Qed.
 
 Lemma find_rounded : find_fn ".rounded_box" T = Some (rounded_box_args, rounded_box_body).
